@@ -119,6 +119,7 @@ package otto
 //@ func toIntegerFloat
 //@   props C05
 //@   requires jsValue(value)
+//@   ensures !isNaN(result)
 //@   ensures isGoNumber(value) ==> sameFloat(result, es5ToInteger(numOf(value)))
 
 // intOf: the int64 that Value.number() reports: the payload itself for integer types,
@@ -359,7 +360,7 @@ package otto
 
 //@ func valueToRangeIndex
 //@   props C08 C09
-//@   requires jsValue(indexValue) && 0 <= length && length <= 4294967296
+//@   requires jsValue(indexValue) && 0 <= length && length <= 1099511627775
 //@   ensures 0 <= result && result <= length
 //@   ensures isGoNumber(indexValue) && !negativeIsZero ==> result == relIndex(intOf(indexValue), length)
 //@   ensures isGoNumber(indexValue) && negativeIsZero ==> result == clamp0(intOf(indexValue), length)
@@ -369,7 +370,7 @@ package otto
 
 //@ func rangeStartEnd
 //@   props C08 C09
-//@   requires slotOK(array, 0) && slotOK(array, 1) && 0 <= size && size <= 4294967296
+//@   requires slotOK(array, 0) && slotOK(array, 1) && 0 <= size && size <= 1099511627775
 //@   stable array
 //@   ensures 0 <= start && start <= size && 0 <= end && end <= size
 //@   ensures len(array) >= 1 && isGoNumber(array[0]) && !negativeIsZero ==> start == relIndex(intOf(array[0]), size)
@@ -382,7 +383,7 @@ package otto
 
 //@ func rangeStartLength
 //@   props C08 C09
-//@   requires slotOK(source, 0) && slotOK(source, 1) && 0 <= size && size <= 4294967296
+//@   requires slotOK(source, 0) && slotOK(source, 1) && 0 <= size && size <= 1099511627775
 //@   stable source
 //@   ensures 0 <= start && start <= size
 //@   ensures len(source) >= 1 && isGoNumber(source[0]) ==> start == relIndex(intOf(source[0]), size)
@@ -1296,3 +1297,77 @@ package otto
 //@   at_call objectDefineOwnProperty : arg1 == "length" && name != "length" ==> is(arg2.value, Value) && is(arg2.value.(Value).value, uint32) && int64(arg2.value.(Value).value.(uint32)) == index + 1 && index >= int64(length#init)
 //@   at_call objectDefineOwnProperty : arg1 == "length" && name == "length" && !isnil(old(descriptor.value)) ==> is(arg2.value, Value) && is(arg2.value.(Value).value, uint32)
 //@   at_call objectDefineOwnProperty : arg1 == "length" && name == "length" && !isnil(old(descriptor.value)) && !arg3 && arg2.value.(Value).value.(uint32) != newLength ==> arg2.value.(Value).value.(uint32) == length#upd + 1 && newLength <= length#upd
+
+// ---------------------------------------------------------------------------
+// builtin_string.go: position arguments of String.prototype methods (C09)
+// ---------------------------------------------------------------------------
+
+// slice / substring / substr: every position is ToInteger of the argument clamped into
+// [0, length] (the closed formulas of rangeStartEnd / rangeStartLength above), and the
+// extraction never indexes outside the string, whatever the arguments (±Infinity, NaN,
+// huge lengths).
+//@ func builtinStringSlice
+//@   props C09
+//@   safety C02 C09
+//@   requires wfCall(call) && argsOK(call.ArgumentList)
+//@   stable call.ArgumentList
+//@ func builtinStringSubstring
+//@   props C09
+//@   safety C02 C09
+//@   requires wfCall(call) && argsOK(call.ArgumentList)
+//@   stable call.ArgumentList
+//@ func builtinStringSubstr
+//@   props C09
+//@   safety C02 C09
+//@   requires wfCall(call) && argsOK(call.ArgumentList)
+//@   stable call.ArgumentList
+
+// charAt / charCodeAt: the position is ToInteger of the first argument (saturating, NaN
+// -> 0), never a wrapped 32-bit value; the receiver is any value (String object content,
+// else ToString) - no nil string object is ever dereferenced; positions outside
+// [0, length) yield "" / NaN (stringAt returns the RuneError marker there).
+//@ func (*object).stringValue
+//@   inline
+//@ func newStringObject
+//@   props C09
+//@   safety C02 C09
+//@   invariant@1 0 <= i && i < len(str)
+//@   ensures result != nil
+//@ func stringObjectOf
+//@   props C09
+//@   safety C02 C09
+//@   requires jsValue(this)
+//@   ensures result != nil
+//@ func stringAt
+//@   props C09
+//@   safety C02 C09
+//@   requires str != nil
+//@ func builtinStringCharAt
+//@   props C09
+//@   safety C02 C09
+//@   requires wfCall(call) && argsOK(call.ArgumentList) && call.runtime != nil
+//@   stable call.ArgumentList
+//@   at_call stringAt : isGoNumber(argOf(call, 0)) ==> arg1 == int(intOf(argOf(call, 0)))
+//@   at_call stringAt : argOf(call, 0).kind == valueUndefined ==> arg1 == 0
+//@ func builtinStringCharCodeAt
+//@   props C09
+//@   safety C02 C09
+//@   requires wfCall(call) && argsOK(call.ArgumentList) && call.runtime != nil
+//@   stable call.ArgumentList
+//@   at_call stringAt : isGoNumber(argOf(call, 0)) ==> arg1 == int(intOf(argOf(call, 0)))
+//@   at_call stringAt : argOf(call, 0).kind == valueUndefined ==> arg1 == 0
+
+// lastIndexOf: the search window ends at min(max(ToInteger(position), 0), length) plus the
+// length of the pattern, and only +Infinity (or an absent/undefined position) means "from
+// the end"; the slice taken from the subject is always within it.
+//@ func builtinStringLastIndexOf
+//@   props C09
+//@   safety C02 C09
+//@   requires wfCall(call) && argsOK(call.ArgumentList) && call.runtime != nil
+//@   requires len(call.ArgumentList) >= 2 ==> jsValue(call.ArgumentList[1])
+//@   stable call.ArgumentList
+//@ func builtinStringIndexOf
+//@   props C09
+//@   safety C02 C09
+//@   requires wfCall(call) && argsOK(call.ArgumentList) && call.runtime != nil
+//@   stable call.ArgumentList
